@@ -394,6 +394,13 @@ func c09CheckSet(w *run.Worker, set map[string]c09Var, allParseOrders bool) {
 						}
 					}
 				default:
+					if set[n].Kind != 0 {
+						if pe, isPl := errs[n].(*errchain.PlError); !isPl || pe == nil || len(pe.PosChain) == 0 {
+							w.Violate("C09:own-error:no-position", fmt.Sprintf("script %s (does not load on its own) is rejected with %T %v\n%s", n, errs[n], errs[n], describe()), cs)
+						} else if p0 := pe.PosChain[0]; p0.File != n || p0.Pos < 0 || p0.Pos > len(srcs[n]) {
+							w.Violate("C09:own-error:names-another-script", fmt.Sprintf("script %s does not load on its own; its error is reported at %s offset %d (its text has %d bytes)\n%v\n%s", n, p0.File, p0.Pos, len(srcs[n]), errs[n], describe()), cs)
+						}
+					}
 					if set[n].Kind == 0 {
 						if msg := c09CheckErr(n, set, srcs, errs[n]); msg != "" {
 							w.Violate("C09:error-chain:"+strings.Join(strings.Fields(msg)[:3], "-")+":"+c09Shape(set, n), fmt.Sprintf("script %s rejected with\n%v\n%s; link order %v\n%s", n, errs[n], msg, lo, describe()), cs)
